@@ -217,18 +217,26 @@ Theorem C10_no_panic_and_mutex : forall (f4 f14 f15 f16 : bool) (ls : list label
 Proof. exact no_panic_and_mutex. Qed.
 Print Assumptions C10_no_panic_and_mutex.
 
-(** monitor_accepts, the finished part (hence _partial): for EVERY step of RunHandlers - executed
-    by Run or by a client thread [me] that is the lock holder whenever its pc is inside the
-    critical section - the simulation invariant [MInv] between model state and monitor state is
-    preserved and the monitor raises nothing on the emitted events (clause 2, "second successful
-    Subscribe", never fires).  Missing for the full statement "verdict (hist (rinit true true true true) ls) = 0":
-    the per-label lemmas for the other 17 label kinds and the reason clauses behind code 6. *)
-Theorem C10_monitor_accepts_partial : forall s m me par p c s1 p' e,
-  SInv s -> MInv s m -> okbad m -> (rhl p = true -> holder s me par p) ->
-  rh_step s me par p c = Some (s1, p', e) ->
-  MInv s1 (mon_run m e) /\ okbad (mon_run m e).
-Proof. exact rh_minv. Qed.
+(** monitor_accepts (all labels; named _partial because three clauses are not covered): on the API trace
+    - the trace function [hist] the check uses - of ANY run of the model with the D4 repair (any fix14,
+    fix15, fix16) the acceptor's verdict is 0 or one of 1, 6, 10: it never raises clause 2 (second
+    Subscribe), 3 / 4 (Stop / Stopped after Started), 5 (processing failed with an open publisher),
+    7 (second Run returned nil), nor the watchdog clauses 8, 9, 11.  Proof: simulation invariant [MInv]
+    between model state and monitor state, one lemma per label kind ([step_minv]).  NOT covered:
+    clause 6 (state-level counterpart: [RInv], C10_stop_is_local) and clauses 1 / 10, which can only fire
+    in the corner the property excludes (the WATCHER's Close removes a handler that was added while the
+    router was closing itself; with a client Close the monitor does not judge them). *)
+Theorem C10_monitor_accepts_partial : forall (f14 f15 f16 : bool) (ls : list label),
+  let v := verdict (hist (rinit true f14 f15 f16) ls) in v = 0 \/ v = 1 \/ v = 6 \/ v = 10.
+Proof. exact monitor_accepts_codes. Qed.
 Print Assumptions C10_monitor_accepts_partial.
+
+(** the simulation step itself, for every label *)
+Theorem C10_monitor_simulation : forall s m l s' evs,
+  SInv s -> fix4 s = true -> MInv s m -> okbad m ->
+  step s l = Some (s', evs) -> MInv s' (mon_run m evs) /\ okbad (mon_run m evs).
+Proof. exact step_minv. Qed.
+Print Assumptions C10_monitor_simulation.
 
 (** the hypotheses are satisfiable and the behaviour is non-trivial *)
 Example C10_running_reachable :
